@@ -45,6 +45,9 @@ def run(prog, R, tier="quick", only_rule=None):
     from rules.props import c04
     c04.c04a(prog, R, rid="C07.e")
     c07f(prog, R)
+    # precedence between runs: bulk-ingested tables enter on top only after everything older was flushed beneath them
+    from rules.props import c14
+    c14.c14b(prog, R, rid="C07.g")
 
 
 def c07a(prog, R, rid="C07.a"):
@@ -371,6 +374,26 @@ def c07f(prog, R):
     calls = [hir_expr_str(n) for n in hir_walk(h["body"]) if n.get("k") == "mcall" and n.get("m") == "is_empty"]
     r.check("next_run.get_overlapping(&key_range).is_empty()" in calls, "%s|trivial move only if no next-level table overlaps" % name,
             "trivial move no longer tests overlap with the next level", "", str(calls))
+    # the key range a level's overlap queries are made with is the true hull of its runs: KeyRange::aggregate keeps
+    # min and max independently (two unconditional updates per element)
+    ag = prog.hir.get("key_range::KeyRange::aggregate")
+    if ag is None:
+        r.anchor_missing("KeyRange::aggregate")
+    else:
+        fors = [n for n in hir_walk(ag["body"]) if n.get("k") == "for"]
+        ok = len(fors) == 1
+        detail = ""
+        if ok:
+            sites = hir_sites(fors[0]["b"], lambda n: n.get("k") == "assign" and hir_expr_str(n["l"]) in ("min", "max"))
+            table = {hir_expr_str(s.node["l"]): s.guard_texts() for s in sites}
+            lets = [(n["pat"]["n"], hir_expr_str(n["init"])) for n in hir_walk(fors[0]["b"]) if n.get("k") == "let" and n["pat"].get("k") == "bind" and "init" in n]
+            detail = "%s ; lets %s" % (table, lets)
+            # each update guarded by exactly its own comparison (no else-chaining between them)
+            ok = table.get("min") == ["(x < min)"] and table.get("max") == ["(x > max)"] and \
+                lets == [("x", "other.min()"), ("x", "other.max()")]
+        r.check(ok, "KeyRange::aggregate|min and max are updated independently (hull of all ranges)",
+                "the aggregated key range of several runs is not their hull: overlap queries made with it (leveled L0 merge) miss "
+                "tables, leaving older data above newer data", "", detail)
     # L0 -> L1: all overlapping tables of the target level are taken
     ch = [k for k in prog.hir if k.startswith("<compaction::leveled::Strategy as compaction::CompactionStrategy>::choose")]
     ok = False
@@ -379,4 +402,4 @@ def c07f(prog, R):
             if n.get("k") == "mcall" and n.get("m") == "get_overlapping":
                 ok = True
     r.check(ok, "leveled::Strategy::choose|L0 compaction takes get_overlapping(target level)", "L0->L1 no longer pulls in every overlapping L1 table", "")
-    r.floor(3)
+    r.floor(4)
